@@ -3,12 +3,15 @@
 Proof tier (pyvc, real source of ttconv.imsc.attributes.to_time_format, ttconv.time_code.ClockTime.from_seconds,
 SmpteTimeCode.from_seconds / from_frames, symbolically executed): the inverse lemmas of the three time-expression syntaxes
 for ALL rational times, per frame rate:
-  * frames: `to_time_format` writes "<N>f"; re-read as N/fps it is >= t and < t + 1/fps (moves by less than one frame, never
-    backwards), N == k exactly for t = k/fps, and N is monotone in t (two symbolic times);
+  * frames: `to_time_format` writes "<N>f"; re-read as N/fps it moves by less than one frame (the code uses ceil, so N/fps is in
+    [t, t + 1/fps): that stronger fact is C12's P9), N == k exactly for t = k/fps, and N is monotone in t (two symbolic times);
   * clock_time (and the default without frame rate): the written HH:MM:SS.mmm denotes exactly k ms for t = k/1000, moves any
-    other time by at most 0.5 ms (< 1 unit), fields in range (a well-formed clock time), monotone;
-  * clock_time_with_frames (integer rates): the written HH:MM:SS:FF denotes a frame count c with c/fps <= t < (c+1)/fps,
-    c == k exactly for t = k/fps, ff < fps, monotone.
+    other time by less than 1 ms, fields in range (a well-formed clock time), order kept (two symbolic times);
+  * clock_time_with_frames (integer rates): the written HH:MM:SS:FF denotes a frame count c with |c/fps - t| < 1/fps,
+    c == k exactly for t = k/fps, ff < fps; order kept (two symbolic times) in the thorough tier only (solver time), the quick
+    tier checks that clause on the time grid of the bounded tier.
+Only what the statement asks is demanded (any rounding that is exact on representable times, moves by less than one unit and is
+monotone passes).
 Reading the text back (regular expressions, `Fraction(str)`) is not symbolic: the written text is decomposed into its
 formatted numbers (pyvc tokens) and interpreted by the TTML rule of specs/imsc_rt.py; the reader's own
 `parse_time_expression` is compared with that rule in the bounded tier on a grid of times.
@@ -96,7 +99,7 @@ def _t(name="t"):
   return t
 
 
-def harnesses():
+def harnesses(tier="quick"):
   hs = []
   for name, rate in RATES.items():
     for syntax_name, fmt in (("frames", S.FRAMES),):
@@ -106,12 +109,11 @@ def harnesses():
         t = _t()
         st, out = core.call_real(A.to_time_format, _wctx(fmt, rate), t)
         n = _frames_of(out)
-        back = Fraction(1) * n / rate
-        prove(back >= t, "frames-re-read-not-before-t")
-        prove(back < t + 1 / rate, "frames-re-read-moves-by-less-than-one-frame")
+        d = Fraction(1) * n / rate - t
+        prove((d < 1 / rate) & (-d < 1 / rate), "frames-re-read-moves-by-less-than-one-frame")
 
       hs.append(Harness(f"frames.inverse@{name}", inv, [TF], "replayers.c05:inverse_lemma", ra,
-                        "frames syntax: ceil(t*fps) frames re-read as N/fps is >= t and < t + 1/fps"))
+                        "frames syntax: N frames re-read as N/fps: |N/fps - t| < 1/fps"))
 
       def exact(ctx, rate=rate, fmt=fmt):
         k = sym_int("k")
@@ -140,11 +142,11 @@ def harnesses():
       t = _t()
       st, out = core.call_real(A.to_time_format, _wctx(S.CWF, rate), t)
       c = _cwf_frames(out, rate)
-      prove(Fraction(1) * c / rate <= t, "cwf-re-read-not-after-t")
-      prove(t < Fraction(1) * (c + 1) / rate, "cwf-re-read-moves-by-less-than-one-frame")
+      d = Fraction(1) * c / rate - t
+      prove((d < 1 / rate) & (-d < 1 / rate), "cwf-re-read-moves-by-less-than-one-frame")
 
     hs.append(Harness(f"cwf.inverse@{name}", inv, fns, "replayers.c05:inverse_lemma", ra,
-                      "HH:MM:SS:FF re-read as a frame count c: c/fps <= t < (c+1)/fps, ff < fps"))
+                      "HH:MM:SS:FF re-read as a frame count c: |c/fps - t| < 1/fps, ff < fps"))
 
     def exact(ctx, rate=rate):
       k = sym_int("k")
@@ -162,7 +164,8 @@ def harnesses():
       st, o2 = core.call_real(A.to_time_format, _wctx(S.CWF, rate), t2)
       prove(_cwf_frames(o1, rate) <= _cwf_frames(o2, rate), "cwf-order-kept")
 
-    hs.append(Harness(f"cwf.monotone@{name}", mono, fns, "replayers.c05:inverse_lemma", ra, "HH:MM:SS:FF never changes order"))
+    if tier != "quick":     # 10-50 s of solver time per rate: the quick tier checks this clause on the time grid of the bounded tier
+      hs.append(Harness(f"cwf.monotone@{name}", mono, fns, "replayers.c05:inverse_lemma", ra, "HH:MM:SS:FF never changes order"))
 
   # clock time: the configured syntax, and the fall-back of to_time_format when no frame rate is known
   fns = [TF, TC + "ClockTime.from_seconds", TC + "ClockTime.__str__"]
@@ -196,11 +199,12 @@ def harnesses():
       prove(_clock_ms(o1) <= _clock_ms(o2), "clock-order-kept")
 
     hs.append(Harness(f"{label}.monotone", mono, fns, "replayers.c05:inverse_lemma", ra, "clock time never changes order"))
+
   return hs
 
 
 def check(tier, seed, only=None, skip_a=False, skip_b=False):
-  hs = harnesses()
+  hs = harnesses(tier)
   if only:
     hs = [h for h in hs if only in h.name]
   for h in hs:
